@@ -889,17 +889,19 @@ def difference (ord : List Bytes → List Bytes) (called : List (Bytes × List P
 
 def initState : St := { scope := ⟨[[]], 0⟩ }
 
+/-- the import block: one line per called function that is not defined in the file, then a blank
+    line — nothing at all when nothing was called -/
+def importPieces (ord : List Bytes → List Bytes) (s : St) : List Piece :=
+  if s.funcsCalled.isEmpty then []
+  else (difference ord s.funcsCalled s.funcsInFile).flatMap (fun k =>
+          (match assocGet? s.funcsCalled k with | some v => v | none => []) ++ [Piece.fixed [10]])
+        ++ [Piece.fixed [10]]
+
 /-- the pieces `soyjs.Write` writes for the file `f`: the import block, then the body -/
 def genPieces (ord : List Bytes → List Bytes) (f : SoyFile) (o : Options) : Except Unit (List Piece) :=
   match visitSoyFile (fun l => Value.sortStrings (ord l)) o f initState with
   | .error e => .error e
-  | .ok (_, body, s) =>
-    let imports : List Piece :=
-      if s.funcsCalled.isEmpty then []
-      else (difference ord s.funcsCalled s.funcsInFile).flatMap (fun k =>
-              (match assocGet? s.funcsCalled k with | some v => v | none => []) ++ [Piece.fixed [10]])
-            ++ [Piece.fixed [10]]
-    .ok (imports ++ body)
+  | .ok (_, body, s) => .ok (importPieces ord s ++ body)
 
 /-- `soyjs.Write(out, f, opts)`: the bytes written, or the error -/
 def gen (ord : List Bytes → List Bytes) (f : SoyFile) (o : Options) : Except Unit Bytes :=
